@@ -7,9 +7,11 @@ use neurons::tensor::Tensor;
 use rayon::prelude::*;
 use serde_json::{json, Value};
 
-const PAIRS: [(f32, f32); 12] = [
+const PAIRS: [(f32, f32); 16] = [
     (0.0, 1.0), (-1.0, 1.0), (-7.7, -0.1), (0.1, 0.3), (-0.3, -0.1), (1.0e-3, 1.1e-3),
     (-1.0e6, 1.0e6), (5.0, 5.0), (-100.0, -99.9), (0.0, 3.0e-39), (16777215.0, 16777216.0), (-2.5, 7.25),
+    // degenerate and narrower-than-epsilon intervals around ordinary magnitudes
+    (0.0, 0.0), (1.0, 1.0), (-1.0, -1.0), (0.0, 1.0e-8),
 ];
 
 fn exp2(e: i64) -> f32 {
@@ -190,7 +192,7 @@ fn nested_matches(d: &neurons::tensor::Data, dims: &[usize]) -> bool {
 }
 
 /// Exhaustive sweep over all generator states (thorough tier): the specification's predicates
-/// "value in [min, max]" and "index < len" for 12 intervals and 10 lengths.
+/// "value in [min, max]" and "index < len" for 16 intervals and 10 lengths.
 pub fn sweep(rep: &mut Report, stride: u64) {
     let m: u64 = 2147483647;
     let lens: [usize; 10] = [1, 2, 3, 5, 7, 10, 16, 33, 64, 1000];
@@ -204,9 +206,18 @@ pub fn sweep(rep: &mut Report, stride: u64) {
             let end = ((c + 1) * per).min(m - 1);
             while x <= end {
                 for (lo, hi) in PAIRS.iter() {
-                    let v = Generator::create(x).generate(*lo, *hi);
-                    if !(v >= *lo && v <= *hi) && out.len() < 4 {
-                        out.push((x, format!("generate({}, {}) = {}", lo, hi, v)));
+                    // a panic inside the code under test is data, not a harness failure
+                    match std::panic::catch_unwind(|| Generator::create(x).generate(*lo, *hi)) {
+                        Ok(v) => {
+                            if !(v >= *lo && v <= *hi) && out.len() < 4 {
+                                out.push((x, format!("generate({}, {}) = {}", lo, hi, v)));
+                            }
+                        }
+                        Err(_) => {
+                            if out.len() < 4 {
+                                out.push((x, format!("generate({}, {}) panicked", lo, hi)));
+                            }
+                        }
                     }
                 }
                 // shuffle itself must stay in bounds (it may clamp the drawn index) and return a permutation
